@@ -8,7 +8,7 @@ META = {
             'shape/order, match==outward[0], outward strictly nested around pos, inward nested.',
     'bounds': {
         'quick': 'HTML scan/attributes/match/balanced len<=3 (any int pos); CSS scan, match/balanced (any int pos), split_value '
-                 'len<=3; 18 half-typed documents (valid prefix + <=2 free characters)',
+                 'len<=3; 21 half-typed documents (valid prefix + <=2 free characters)',
         'thorough': 'HTML scan len<=4, attributes len<=3, HTML matchers len<=4; CSS scan/matchers/split_value len<=4; prefixes + <=3 free characters',
     },
     'outside_claim': ['strings longer than the bound', 'code points >= 128',
@@ -261,7 +261,7 @@ def mk_css_split(L, lo, hi):
 
 
 HTML_PREFIXES = ['<style></style><style>', '<script>x</script><script>', '<a b="', '<a><!--', '<a></a><b', "<a href='x'>t</a>",
-                 '<![CDATA[', '<?php ', '<a><br><b>', '<a b=c d>']
+                 '<![CDATA[', '<?php ', '<a><br><b>', '<a b=c d>', '<p>x</br', '<img a></img', '<script>x</script><style>']
 CSS_PREFIXES = ['a{b:c}d{e:', 'a{b:"', '@media (x:', 'a{/*', 'a{b:c;', 'a::b{c:url(', 'a{b{c:d}', 'a:b;c']
 
 
